@@ -47,6 +47,20 @@ fn alloc_shapes() -> Vec<(&'static str, String)> {
         "struct-field-replace",
         "use vh\ntype Bx = {\n  v: array<int>\n}\nlet n = vh_next_int()\nlet s = Bx([0])\nvar i = 0\nvar acc = 0\nwhile i < n {\n  s.v = [i, i]\n  acc = acc + s.v[0] - i\n  i = i + 1\n}\nvh_emit_int(acc)\n".to_string(),
     ));
+    // a scratch array grown element by element each iteration (buffer regrowth at 5, 9, 17 elements),
+    // once with an integer literal (the optimizer's immediate push) and once with a variable
+    v.push((
+        "scratch-array-push-literal",
+        "use vh\nlet n = vh_next_int()\nvar i = 0\nvar acc = 0\nwhile i < n {\n  let t: array<int> = []\n  var j = 0\n  while j < 20 {\n    t.push(0)\n    j = j + 1\n  }\n  acc = acc + t[19]\n  i = i + 1\n}\nvh_emit_int(acc)\n".to_string(),
+    ));
+    v.push((
+        "scratch-array-push-variable",
+        "use vh\nlet n = vh_next_int()\nvar i = 0\nvar acc = 0\nwhile i < n {\n  let t: array<int> = []\n  var j = 0\n  while j < 20 {\n    t.push(j)\n    j = j + 1\n  }\n  acc = acc + t[0]\n  i = i + 1\n}\nvh_emit_int(acc)\n".to_string(),
+    ));
+    v.push((
+        "scratch-array-of-strings",
+        "use vh\nlet n = vh_next_int()\nvar i = 0\nvar acc = 0\nwhile i < n {\n  let t: array<string> = []\n  var j = 0\n  while j < 9 {\n    t.push(\"k\" .. j)\n    j = j + 1\n  }\n  acc = acc + t.len() - 9\n  i = i + 1\n}\nvh_emit_int(acc)\n".to_string(),
+    ));
     v.push((
         "push-pop-churn",
         "use vh\nlet n = vh_next_int()\nlet a: array<array<int>> = []\nvar i = 0\nvar acc = 0\nwhile i < n {\n  a.push([i])\n  let x = a.pop()\n  acc = acc + x[0] - i\n  i = i + 1\n}\nvh_emit_int(acc)\n".to_string(),
